@@ -51,7 +51,8 @@ def col_kind(col):
 
 
 STAMPS = ['1969-01-01 00:00:00', '1999-12-31 23:59:59', '2000-02-29 12:30:45', '2024-06-18 00:00:00',
-          '2068-12-31 23:59:59']
+          '2068-12-31 23:59:59', '2021-03-04 05:06:07', '2010-12-01 00:00:01', '2001-02-03 04:05:06',
+          '2030-11-12 13:14:15']
 
 
 def value_for(col, variant, row):
@@ -95,6 +96,17 @@ def value_for(col, variant, row):
 
 def build_table(case):
     """-> (fieldnames, rows as list of dicts with '' for omitted cells)"""
+    if case.get('day') is not None:
+        # every calendar day of a leap year (and the same day-of-year in other years of the two-digit window), with a
+        # time of day derived from it: month/day swaps, off-by-one days and lost times show on most of them
+        import datetime as _dt
+        d0 = _dt.datetime(case['year'], 1, 1) + _dt.timedelta(days=case['day'])
+        rows = []
+        for k in range(3):
+            d = d0.replace(hour=(case['day'] + 7 * k) % 24, minute=(case['day'] * 3 + k) % 60,
+                           second=(case['day'] * 7 + 11 * k) % 60)
+            rows.append({'MTI': '1240', 'DE12': d.strftime('%Y-%m-%d %H:%M:%S')})
+        return ['MTI', 'DE12'], rows
     if case.get('sweep') is not None:
         # alignment sweep: a first row whose record length grows one character at a time moves the following large
         # records through every position relative to the 1012-byte block payloads
@@ -189,7 +201,8 @@ def check_case(case, acc, workdir=None):
         w.writeheader()
         w.writerows(rows)
         acc.case((tuple(cols), case.get('rows'), tuple(case.get('variant', [])), case.get('omit'), case['enc'],
-                  case['blocked'], case['entry'], case.get('sweep')), nontrivial=len(cols) > 1,
+                  case['blocked'], case['entry'], case.get('sweep'), case.get('day'), case.get('year')),
+                 nontrivial=len(cols) > 1,
                  outcome='%s/%s' % (case['entry'], case['enc']))
         try:
             out_text = convert(case, buf.getvalue(), workdir)
@@ -245,6 +258,12 @@ def enumerate_cases(tier, seed):
                 add(de_cols + pds_cols, rows, v, omit, env)
                 add(de_cols + ['DE48'], rows, v, omit, env)
     add([], 1, ['plain', 0], 0, all_envs)
+    for year in (2024, 1972, 2068):
+        for day in range(366 if year != 2068 else 365):
+            if year != 2024 and day % 5:
+                continue
+            cases.append({'day': day, 'year': year, 'enc': CODECS[day % 3], 'blocked': bool(day % 2),
+                          'entry': 'func' if day % 40 else 'cli', 'seed': seed})
     for n in range(1, 1000):
         for enc, blocked in ((('latin_1', True),) if n % 7 else (('latin_1', True), ('cp500', True), ('cp037', False))):
             cases.append({'sweep': n, 'enc': enc, 'blocked': blocked, 'entry': 'func' if n % 50 else 'cli',
@@ -276,7 +295,8 @@ def describe(tier, seed):
                 'length 1 / maximum, plain decimals 0 / 1-digit / maximum / 10^(w-1), complete ISO stamps from 1969 to '
                 '2068, well-formed DE48 carriers; each crossed with the metacharacters , " "" ; leading and trailing '
                 'space, mixed) ; MTI + every pair of columns; all columns with PDS columns or with DE48 (never both); '
-                'rows 1..3 with per-row omitted cells; an alignment sweep (a first row growing from 1 to 999 characters in '
+                'rows 1..3 with per-row omitted cells; every calendar day of 2024 (every fifth of 1972 and 2068) with '
+                'varying times of day in DE12; an alignment sweep (a first row growing from 1 to 999 characters in '
                 'front of two rows of 1.0-2.0 kB, so the large records take every position relative to the 1012-byte '
                 'blocks); x {latin_1, cp500, cp037} x {VBS, 1014} x {function entry '
                 'points on StringIO/BytesIO, cli_run on real files, the argument-parser entry with default output '
